@@ -31,8 +31,21 @@ def NoStale (s : Sys) : Prop :=
 def noStaleCopyOnCreate (s : Sys) (a : Action) : Prop :=
   a = .work → s.job.isSome = true → ((s.q.advance s.clock).get).isSome = true → NoStale s
 
-/-- the filter of the stability theorems -/
+/-- `E-NoUnrecordedWhenFinished` (guard of `work` steps; needed since the repair of F23): when a pass
+starts on a cached Job that is recorded `Finished`, the pod cache holds no UNRECORDED task of the Job
+(a pod it created while the status write recording it failed).  Since the repair a complete summary
+adopts such a task, so a Job that was written `Finished` while an unrecorded task of it was still
+invisible (status-write fault AND pod-informer lag AND completion through other tasks) is un-finished
+again when the pod reaches the cache; before the repair the task was never stopped instead. -/
+def noUnrecordedWhenFinished (s : Sys) (a : Action) : Prop :=
+  a = .work → ∀ jo, s.jobCache = some jo → jo.job.status.condition.finished.isSome = true → NoUnrec s jo
+
+/-- the filter of the invariants behind the stability theorems (`Inv3`, one live task per index) -/
 def stabEnv (s : Sys) (a : Action) : Prop := noForeign s a ∧ noUserEdit s a ∧ noStaleCopyOnCreate s a
+
+/-- the filter of the stability theorems proper ("Finished stays Finished, with the same result and
+finish time"): `stabEnv` plus `E-NoUnrecordedWhenFinished` -/
+def stabEnvF (s : Sys) (a : Action) : Prop := stabEnv s a ∧ noUnrecordedWhenFinished s a
 
 structure WF3 (j0 : JobObj) : Prop where
   noKill : j0.job.killTimestamp = none
